@@ -362,6 +362,7 @@ func checkC09(a *checkArgs, r *Result) error {
 		nfc = 120
 	}
 	w2fTie(r, dp, rand.New(rand.NewSource(a.seed+77)), nfc)
+	xzwfTie(r, dp, rand.New(rand.NewSource(a.seed+78)), nfc/2)
 	dp.Close()
 	// reader side
 	streams := libraryStreams(rng, nbase*2, 900)
